@@ -51,8 +51,12 @@ impl Sync {
             None => (0, 0),
         };
 
-        bitbox_sync.wait_pre_meta()?;
-        let beatree_meta_wd = beatree_sync.wait_pre_meta()?;
+        // Wait for both, even if the first one failed: no background work of this sync may still
+        // be writing when the failure is reported (the handle may be dropped right afterwards).
+        let bitbox_pre_meta = bitbox_sync.wait_pre_meta();
+        let beatree_pre_meta = beatree_sync.wait_pre_meta();
+        bitbox_pre_meta?;
+        let beatree_meta_wd = beatree_pre_meta?;
 
         if let Some(PanicOnSyncMode::PostWal) = self.panic_on_sync {
             panic!("panic_on_sync is true (post-wal)")
